@@ -99,6 +99,7 @@ def ans_traces(ctx, exact, abstract):
 @prop("C01")
 def c01(ctx):
     py_traces(ctx, ["ans"])
+    py_diff(ctx)
     ans_traces(ctx, exact=False, abstract=True)
     ans_states(ctx, ["TypeInv", "StateInv", "LawPopAfterPush", "LawImportExport"], "c01")
     ctx.require("batch_forms")
@@ -277,6 +278,7 @@ def range_steered(ctx, exact):
 @prop("C02")
 def c02(ctx):
     py_traces(ctx, ["range"])
+    py_diff(ctx)
     range_traces(ctx, exact=False)
     range_steered(ctx, exact=False)
     range_hists(ctx, ["TypeInv", "StateInv", "RoundTrip", "ExhaustedAfter", "EmptyMessage", "InSync"], "c02")
@@ -344,7 +346,7 @@ def c18_ans(ctx):
 
 @prop("C08")
 def c08(ctx):
-    py_traces(ctx, ["symbol", "range"])       # exports through the Python API go through the guards (seal, show, unseal)
+    py_traces(ctx, ["symbol", "range", "ans"])       # exports through the Python API go through the guards (seal, show, unseal)
     range_steered(ctx, exact=False)
     c08_ans(ctx)
     range_hists(ctx, ["TypeInv", "StateInv"], "c08")
